@@ -6,3 +6,5 @@ package classifier
 const verifOn = false
 
 func verifEmit(string, ...interface{}) {}
+
+func verifCandidates(c Matches) Matches { return c }
